@@ -2,6 +2,8 @@ package props
 
 import (
 	"fmt"
+	"runtime"
+	"runtime/debug"
 
 	"voicheck/erange"
 )
@@ -24,6 +26,9 @@ import (
 func init() {
 	Registry["C04"] = func(c *Ctx) {
 		run := c.Run
+		// soft heap limit: the collector works harder instead of letting the
+		// footprint of six loaded configurations grow past 2 GB
+		defer debug.SetMemoryLimit(debug.SetMemoryLimit(1500 << 20))
 		stageA := []string{"purego", "f32"}
 		var stageB []string
 		if c.Tier == "thorough" {
@@ -54,10 +59,6 @@ func init() {
 			"curve/scalar: the 64-bit back end is analysed by erange.CheckScalar64 under property C05; the 32-bit scalar back end wraps on purpose (Karatsuba) and is out of reach of intervals",
 		)
 
-		all := append([]string(nil), stageA...)
-		if !c.Preload(all...) {
-			return
-		}
 		erange.DeclareFieldRules(run, "RANGE-A", stageA)
 		if len(stageB) > 0 {
 			erange.DeclareStageBRules(run, "RANGE-B", stageB)
@@ -66,16 +67,25 @@ func init() {
 		for _, id := range stageB {
 			inB[id] = true
 		}
-		for _, id := range stageA {
-			p := c.Prog(id)
-			if p == nil {
-				continue
+		// two configurations are loaded at a time (in parallel) and dropped
+		// when done: keeps the footprint below 2 GB
+		for i := 0; i < len(stageA); i += 2 {
+			batch := stageA[i:min(i+2, len(stageA))]
+			if !c.Preload(batch...) {
+				return
 			}
-			erange.CheckFieldStageA(run, p, "RANGE-A")
-			if inB[id] {
-				erange.CheckFieldStageB(run, p, "RANGE-B")
+			for _, id := range batch {
+				p := c.Prog(id)
+				if p == nil {
+					continue
+				}
+				erange.CheckFieldStageA(run, p, "RANGE-A")
+				if inB[id] {
+					erange.CheckFieldStageB(run, p, "RANGE-B")
+				}
+				c.Drop(id)
 			}
-			c.Drop(id) // one configuration at a time keeps the footprint small
+			runtime.GC()
 		}
 		if len(stageB) == 0 {
 			run.NotDecided = append(run.NotDecided, "stage B (pre-conditions at the call sites of field.go, curve, internal/elligator, primitives/h2c) runs in the thorough tier only")
